@@ -443,6 +443,7 @@ class Msg(object):
         sender = cur_act()
         W.msg_log.append((self.seq, topic, method, self.short(),
                           sender.label if sender else 'ext'))
+        W.extra.setdefault('msgs_seen', []).append(self)
 
     @property
     def label(self):
